@@ -23,8 +23,13 @@ var (
 	poolPort   = []string{"80", "8080", "443", "0080", "65535", "0"}
 	badPort    = []string{"65536", "-1", "abc", "", "80a", "4294967376", "+80"}
 	poolIP     = []string{"10.0.0.1", "10.0.0.0/8", "10.1.2.3/16", "192.168.1.0/24", "0.0.0.0/0", "1.2.3.4/32", "10.0.0.2/31", "172.16.0.0/12"}
-	badIP      = []string{"10.0.0.256", "10.0.0", "10.0.0.1/33", "010.0.0.1", "a.b.c.d", "10.0.0.1/", "10.0.0.1/08", "", "10.0.0.1.2", "10..0.1", "1.2.3.4/+8", "/8"}
+	poolIP6    = []string{"2001:db8::/32", "2001:db8::1", "2001:DB8:0:0:1::/64", "::ffff:10.0.0.1", "::/0", "fe80::1%eth0", "1:2:3:4:5:6:7::", "::1/128", "2001:db8:0:1:0:0:0:1/127",
+		"::ffff:1.2.3.0/120", "1:0:0:2:0:0:0:3", "0:0:1::/48"}
+	badIP      = []string{"10.0.0.256", "10.0.0", "10.0.0.1/33", "010.0.0.1", "a.b.c.d", "10.0.0.1/", "10.0.0.1/08", "", "10.0.0.1.2", "10..0.1", "1.2.3.4/+8", "/8",
+		"2001:db8::/129", "1::2::3", "2001:db8:::1", "12345::", "fe80::1%eth0/64", "::ffff:1.2.3", "1:2:3:4:5:6:7:8:9", "1:2:3:4:5:6:7:8::", ":1::2", "1:2:3:4:5:6:7", "fe80::1%",
+		"1:2:3:4:5:6:1.2.3.4.5", "1::g", "1:2:3:4:5:6:7:1.2.3.4", "::1/-1", "::1/0128", "%eth0", "1.2.3.4%eth0", "1:2.3.4.5::"}
 	poolSNI    = []string{"www.example.com", "api.example.com", "test.org"}
+	reqIPs6    = []string{"2001:db8::1", "2001:db8:ffff:ffff:ffff:ffff:ffff:ffff", "2001:db9::", "::1", "::", "::ffff:10.0.0.1", "fe80::1", "1:2:3:4:5:6:7:0", "2001:db8:0:1::", "::ffff:1.2.3.4"}
 	reqIPs     = []string{"10.0.0.1", "10.0.0.2", "10.0.0.3", "10.1.255.255", "10.2.0.0", "11.0.0.0", "192.168.1.77", "192.168.2.1", "1.2.3.4", "1.2.3.5", "172.31.255.255", "172.32.0.0", "0.0.0.0", "255.255.255.255"}
 )
 
@@ -117,15 +122,13 @@ func (g *genCtx) principal() string {
 	case x < 84:
 		return td + "/*"
 	case x < 90:
-		if g.valid {
-			// keep the trust domain part whole: cut only inside the namespace / service account
-			k := len(td) + 1 + g.r.Intn(len(full)-len(td)-1)
-			if g.r.Chance(1, 2) {
-				return full[:k+1] + "*"
-			}
-			return full
-		}
+		// cut anywhere, also inside the trust-domain part (`*ocal/ns/foo/sa/a` is a five-part value with a
+		// `*suffix` trust domain: alias handling applies to it)
 		return g.form(full, true)
+	case x < 94:
+		// five-part value with a wildcard inside the trust-domain part (validator-accepted)
+		k := 1 + r.Intn(len(td)-1)
+		return wire.Pick(r, []string{td[:k] + "*", "*" + td[k:], td[:k] + "*", td[:1] + "*" + td[len(td)-1:]}) + "/ns/" + ns + "/sa/" + sa
 	default:
 		if g.valid {
 			return full
@@ -137,6 +140,9 @@ func (g *genCtx) principal() string {
 func (g *genCtx) namespace() string {
 	r := g.r
 	ns := wire.Pick(r, poolNS)
+	if r.Chance(1, 40) {
+		ns = wire.Pick(r, []string{"ns", "sa"}) // legal namespace names that collide with the SPIFFE path keywords
+	}
 	g.note("ns", ns)
 	switch x := r.Intn(100); {
 	case x < 50:
@@ -147,9 +153,14 @@ func (g *genCtx) namespace() string {
 		return "*" + ns[r.Intn(len(ns)):]
 	case x < 80:
 		return "*"
-	case x < 90:
+	case x < 88:
 		k := 1 + r.Intn(len(ns))
 		return ns[:k] + "*" + ns[k:]
+	case x < 91:
+		// validator-accepted values with a '/' (no namespace has one: the statement says they match nothing)
+		sa := wire.Pick(r, poolSA)
+		g.note("peer", "cluster.local,"+ns+","+sa)
+		return wire.Pick(r, []string{ns + "/sa", ns + "/sa/" + sa, ns + "/", "ns/" + ns, ns + "/sa/*"})
 	default:
 		if g.valid {
 			return ns
@@ -190,13 +201,11 @@ func (g *genCtx) trustDomain(inWhen bool) string {
 		return "*"
 	default:
 		if g.valid {
-			if inWhen && r.Chance(1, 3) {
-				return td // keep '/' forms out of valid runs: see notes (validation gap)
-			}
 			return td
 		}
+		// '/' inside a trust domain is rejected by validation in `from` and (since the fix in /repo) in `when`
 		k := 1 + r.Intn(len(td)-1)
-		return wire.Pick(r, []string{td[:k] + "*" + td[k:], "", "**", td + "/ns", "*" + td + "*", "t.d"})
+		return wire.Pick(r, []string{td[:k] + "*" + td[k:], "", "**", td + "/ns", td + "/ns/foo", "*" + td + "*", "t.d"})
 	}
 }
 
@@ -205,6 +214,9 @@ func (g *genCtx) ipBlock() string {
 		return wire.Pick(g.r, badIP)
 	}
 	v := wire.Pick(g.r, poolIP)
+	if g.r.Chance(1, 4) {
+		v = wire.Pick(g.r, poolIP6)
+	}
 	g.note("ip", v)
 	return v
 }
@@ -451,7 +463,7 @@ func (g *genCtx) genPolicies(o genOpts) []string {
 	if o.aliases && r.Chance(1, 2) {
 		tds := [][]string{{"td1", "old-td"}, {"cluster.local", "td1"}, {"td1"}, {"td1", "old-td", "cluster.local"}, {"old-td", "*-td"}}
 		if g.valid {
-			tds = tds[:4] // a wildcard alias is outside the statement's reading of the bundle
+			tds = tds[:4] // mesh config validation (ValidateTrustDomain) rejects a wildcard alias
 		}
 		lines = append(lines, "td "+wire.EncList(wire.Pick(r, tds)))
 	}
@@ -635,10 +647,13 @@ func gen(stream string, seed uint64, n int, outp string) {
 			if r.Chance(1, 3) {
 				out.Line("build http " + auth + " in")
 			}
-			out.Line("build " + wire.Pick(r, []string{"tcp", "tcp", "tcp", "tcphttp"}) + " " + auth)
+			kind := wire.Pick(r, []string{"tcp", "tcp", "tcp", "tcphttp"})
+			out.Line("build " + kind + " " + auth)
 			nr := 10 + r.Intn(6)
 			for i := 0; i < nr; i++ {
-				out.Line(g.genReq(false))
+				// the TCP rules as an HTTP filter (waypoint) see HTTP requests: the HTTP-only fields stay
+				// inexpressible there whatever the request carries
+				out.Line(g.genReq(kind == "tcphttp" && r.Chance(1, 2)))
 			}
 		}
 	}
